@@ -153,6 +153,28 @@ func init() {
 						}
 					}
 				}})
+			// round 17: escapes whose backslash is the last byte of a run of plain text of every length around the powers of two
+			// (a lexer that hands text on in pieces must not lose the backslash between two pieces)
+			var escLens []int
+			for p := 6; p <= 16; p++ {
+				for d := -2; d <= 1; d++ {
+					escLens = append(escLens, 1<<p+d)
+				}
+			}
+			secs = append(secs, core.Section{Name: "escapes-behind-long-runs", Exhaustive: true, N: len(escLens),
+				Run: func(c *core.Ctx, i int) {
+					n := escLens[i]
+					for _, fill := range []string{"t", "ab ", "é"} {
+						run := strings.Repeat(fill, n/len(fill)+1)[:n]
+						for !utf8.ValidString(run) {
+							run = run[:len(run)-1]
+						}
+						for _, esc := range []string{"\\@if(x)", "\\@end", "\\{{ x }}", "\\@each(a in b)", "\\@", "\\"} {
+							runText(c, run+esc+" tail")
+							runText(c, "<p>\n"+run+esc+run+esc)
+						}
+					}
+				}})
 			// splices: t1 · C · t2 for all text strings of up to 2 atoms (3 on one side in thorough)
 			var texts []string
 			seen := map[string]bool{}
